@@ -231,3 +231,6 @@ class Mailbox:
     S4.upon(rx_message_theirs, enter=S4, outputs=[])
     S4.upon(rx_message_ours, enter=S4, outputs=[])
     S4.upon(close, enter=S4, outputs=[])
+    # the nameplate's `claimed` response can name the mailbox after we were
+    # told to close (e.g. close() called from a wordlist-available callback)
+    S4.upon(got_mailbox, enter=S4, outputs=[])
